@@ -81,6 +81,11 @@ def run(ctx):
             kind = ctx.rng.choice(["seq", "bar"])
             cases.append((len(cases), kind, sc, ctx.rng.randint(-130, 130),
                           ctx.rng.choice(BAR_KEYS) if kind == "bar" else None))
+    if ctx.thorough and not ctx.replay:
+        from harness import fixtures
+        for sc in fixtures.slices("quantised"):
+            for i in (1, -3, 12, 30, -40, 87):
+                cases.append((len(cases), "seq", {k: sc[k] for k in ("notes", "extras", "dur")}, i, None))
     obs = pmap(execute, cases)
     for i, o in enumerate(obs):
         o["id"] = i
